@@ -3,6 +3,7 @@
   Used by C13 / C14 (line numbers of a listing) and C16 (numbers written by moto_nl).
 -/
 import MotoModel.Model.Py
+import MotoModel.Spec.LineTools
 namespace Moto
 
 theorem digits_lt10 (n : Nat) (h : n < 10) : digits n = [48 + n] := by
@@ -69,5 +70,47 @@ theorem takeWhileB_all {p : Nat → Bool} : ∀ (a : Str), (∀ x ∈ a, p x = t
 theorem takeWhile_digits (n c : Nat) (r : Str) (hc : isDigit c = false) :
     (digits n ++ c :: r).takeWhile isDigit = digits n :=
   takeWhileB_all_append _ c r (digits_all_digit n) hc
+
+/-! ### the specification's reading of a numeral (Spec/LineTools.lean) -/
+
+open Moto.Spec in
+theorem digitRun_eq_takeWhile : ∀ (l : Str), digitRun l = l.takeWhile isDigit
+  | [] => rfl
+  | c :: r => by
+    simp only [digitRun, List.takeWhile_cons, isDigit]
+    by_cases h : 48 ≤ c ∧ c ≤ 57
+    · rw [if_pos h, digitRun_eq_takeWhile r]
+      simp [h.1, h.2]
+    · rw [if_neg h]
+      have : (decide (48 ≤ c) && decide (c ≤ 57)) = false := by
+        simp only [Bool.and_eq_false_iff, decide_eq_false_iff_not]
+        by_cases h1 : 48 ≤ c
+        · right; exact fun h2 => h ⟨h1, h2⟩
+        · left; exact h1
+      simp [this]
+
+open Moto.Spec in
+theorem decimal_append (xs : Str) (d : Nat) : decimalFromLast (xs ++ [d]) = decimalFromLast xs + (d - 48) * 10 ^ xs.length := by
+  induction xs with
+  | nil => simp [decimalFromLast]
+  | cons x r ih =>
+    simp only [List.cons_append, decimalFromLast, ih, List.length_cons, Nat.pow_succ]
+    rw [Nat.mul_add, ← Nat.mul_assoc, Nat.mul_comm 10 (d - 48), Nat.mul_assoc, Nat.mul_comm 10 (10 ^ r.length)]
+    omega
+
+open Moto.Spec in
+theorem foldl_horner : ∀ (ds : Str) (a : Nat),
+    ds.foldl (fun a d => a * 10 + (d - 48)) a = a * 10 ^ ds.length + decimalFromLast ds.reverse
+  | [], a => by simp [decimalFromLast]
+  | d :: r, a => by
+    simp only [List.foldl_cons, List.reverse_cons, List.length_cons]
+    rw [foldl_horner r, decimal_append, List.length_reverse, Nat.pow_succ, Nat.add_mul, Nat.mul_assoc, Nat.mul_comm 10 (10 ^ r.length)]
+    omega
+
+open Moto.Spec in
+theorem parseNat_eq_decimal (ds : Str) : parseNat ds = decimalFromLast ds.reverse := by
+  unfold parseNat
+  rw [foldl_horner]; simp
+
 
 end Moto
